@@ -39,7 +39,7 @@ func scanDeterminism(p *Prog, roots []*ssa.Function, allowGlobals func(*ssa.Glob
 		Instrs(fn, func(_ *ssa.BasicBlock, _ int, in ssa.Instruction) {
 			switch x := in.(type) {
 			case *ssa.Range:
-				if _, isMap := x.X.Type().Underlying().(*types.Map); isMap {
+				if _, isMap := x.X.Type().Underlying().(*types.Map); isMap && !mapRangeOrderInsensitive(fn, x) {
 					out = append(out, ndFinding{"map-range", fn, x.Pos(), "iteration over a map (" + typeShort(x.X.Type()) + "): the order differs from run to run"})
 				}
 			case *ssa.Go:
@@ -281,4 +281,57 @@ func C17(p *Prog, r *Run) {
 		}
 	})
 	_ = fmt.Sprint
+}
+
+// mapRangeOrderInsensitive: the loop driven by this map range only copies
+// entries into another map (map updates, no other store, call, append or
+// early exit), so the result does not depend on the iteration order.
+func mapRangeOrderInsensitive(fn *ssa.Function, rg *ssa.Range) bool {
+	var next *ssa.Next
+	for _, ref := range *rg.Referrers() {
+		if n, ok := ref.(*ssa.Next); ok {
+			if next != nil {
+				return false
+			}
+			next = n
+		}
+	}
+	if next == nil {
+		return false
+	}
+	var loop *Loop
+	for _, l := range Loops(fn) {
+		if l.Header == next.Block() {
+			loop = l
+		}
+	}
+	if loop == nil {
+		return false
+	}
+	updates := 0
+	for b := range loop.Blocks {
+		// leaves only from the header (exhaustion)
+		for _, sx := range b.Succs {
+			if !loop.Blocks[sx] && b != loop.Header {
+				return false
+			}
+		}
+		for _, in := range b.Instrs {
+			switch x := in.(type) {
+			case *ssa.MapUpdate:
+				if x.Map == rg.X {
+					return false
+				}
+				updates++
+			case *ssa.Store, *ssa.Send, *ssa.Go, *ssa.Defer, *ssa.Return, *ssa.Panic, *ssa.RunDefers, *ssa.Select:
+				return false
+			case ssa.CallInstruction:
+				if b, ok := x.Common().Value.(*ssa.Builtin); ok && (b.Name() == "len" || b.Name() == "cap") {
+					continue
+				}
+				return false
+			}
+		}
+	}
+	return updates > 0
 }
